@@ -8,7 +8,9 @@ KEYS = ["k", "k1", "k12", "~", "x", "xy", "%25ff01", "%2580fe"]
 VALS = ["v1", "v2", "w", "zz", "~"]
 CODES = {"code1": "9a3f688fd6543508be48a13660f2d780f2601f617a3b44ef402f5b56eee7dd08",
          "code2": "06006085f233f903b528878a17f958db2bfba88148b76f5ae5abd6edbd4ddf41",
-         "c": "0b42b6393c1f53060fe3ddbfcd7aadcca894465a5a438f69c87d790b2299b9b2"}
+         "c": "0b42b6393c1f53060fe3ddbfcd7aadcca894465a5a438f69c87d790b2299b9b2",
+         # the empty code (SetCode(addr, []byte{})): a boundary value of its own, its hash is keccak256 of nothing
+         "~": "c5d2460186f7233c927e7db2dcc703c0e500b653ca82273b7bfad8045d85a470"}
 
 
 class LedgerGen:
@@ -647,8 +649,10 @@ def mon_ledger(h, obs, prop):
                     hit(p, f"{p}/read-not-latest-write/{k0}", f"{k0} {ws[1]} returned {o} but the latest write is {want}", op)
                 d[ws[1]] = int(o)
         elif k0 == "code":
+            # an empty code is no code (the ledger answers nil for both, as it answers "absent" for an empty storage value)
             want = ref.code.get(ws[1])
-            got = None if o == "-" else o
+            want = None if want == "~" else want
+            got = None if o in ("-", "~") else o
             if got != want:
                 p = "C12" if (after_rollback or after_refused) and prop == "C12" else "C13"
                 if after_refused and p == "C12":
@@ -661,7 +665,12 @@ def mon_ledger(h, obs, prop):
             empty = ref.bal.get(ws[1], 0) == 0 and ref.nonce.get(ws[1], 0) == 0 and cd is None
             want = None if (cd is None or empty) else code_hash.get(cd)
             got = None if o == "-" else o
-            if cd is not None and want is None:
+            if cd == "~":
+                # the empty code: the account reports no hash or the hash of nothing, never the hash of an older code
+                if got is not None and got != code_hash.get("~", got):
+                    p = "C12" if (after_rollback or after_refused) and prop == "C12" else "C13"
+                    hit(p, f"{p}/read-not-latest-write/codehash", f"codehash {ws[1]} returned {o!r} but the code of the account is empty", op)
+            elif cd is not None and want is None:
                 pass       # hash of this code unknown to the reference
             elif got != want:
                 p = "C12" if (after_rollback or after_refused) and prop == "C12" else "C13"
